@@ -1342,6 +1342,19 @@ def add_violations(ctx: Ctx, viol, cap=6):
     ctx.cov["violating_cases"] = ctx.cov.get("violating_cases", 0) + len(viol)
 
 
+def corpus_cases():
+    """Minimised past failures (repaired defects, classes of seeded changes): run first."""
+    out = []
+    d = core.VERIF / "harness" / "corpus" / "C01"
+    for f in sorted(d.glob("*.json")):
+        data = json.loads(f.read_text())
+        for c in (data if isinstance(data, list) else [data]):
+            c = dict(c)
+            c["corpus"] = f.stem
+            out.append(c)
+    return out
+
+
 PICKLE_OK = True    # a pickled pipeline runs since the repair of C01-pickled-group-run (ModelGroup.__setstate__)
 
 
@@ -1375,7 +1388,9 @@ def run(ctx: Ctx):
         gen["Gen_C01.v"] = tr.FALLBACK
     core.proof_leg(ctx, gen, PROP_FILE)
 
-    cases = fixed_cases() + fixed_hist_cases(pickle_ok=PICKLE_OK, thorough=not ctx.quick)
+    cases = corpus_cases()
+    ctx.cov["corpus_cases"] = len(cases)
+    cases += fixed_cases() + fixed_hist_cases(pickle_ok=PICKLE_OK, thorough=not ctx.quick)
     cases += gen_cases(ctx, ctx.budget(90, 600))
     cases += hist_cases(ctx, ctx.budget(130, 900))
     cases += pair_cases(full=not ctx.quick)
